@@ -96,9 +96,12 @@ func c11Build(in c11Input) (*Store, *c11File, c11Model, error) {
 		set := func(k int, gen int) error {
 			key := fmt.Sprintf("k%03d", k)
 			val := fmt.Sprintf("v%d.%d.%d", c, k, gen)
+			if k%4 == 1 {
+				val = "" // zero-length (non-nil) values are legal and must survive the copy, too
+			}
 			pri := int32((k*7919+gen*104729+c*13)%1000 + 1)
 			m[name][key] = fmt.Sprintf("%s|%d", val, pri)
-			return col.SetItem(&Item{Key: []byte(key), Val: []byte(val), Priority: pri})
+			return col.SetItem(&Item{Key: []byte(key), Val: append([]byte{}, val...), Priority: pri})
 		}
 		for k := 0; k < in.Items; k++ {
 			if err := set(k, 0); err != nil {
